@@ -98,8 +98,21 @@ def run_one(ctx, prop, inj, prog, mode, seed, plan=None, p=0.0, probe=True):
         detail_extra["frozen"] = run.frozen
     if run.error:
         detail_extra["controller_error"] = run.error
+    restarted = False
+    seen_stop = False
+    for e in events:
+        if e[1] == "stop_ret" and e[3].get("effective"):
+            seen_stop = True
+        elif e[1] == "start_call" and seen_stop:
+            restarted = True
     for pid, findings in results.items():
         for key, detail in findings:
+            if prop == "C11" and pid != "C11" and restarted:
+                # "a stopped pool can be started again and then behaves as a fresh pool"
+                d = dict(detail)
+                d.update(detail_extra)
+                d["events_tail"] = [[e[0], e[1], e[2], e[3]] for e in events[-40:]]
+                ctx.violate("restarted-pool-misbehaves:%s:%s" % (pid, key), case, d)
             if pid == prop:
                 d = dict(detail)
                 d.update(detail_extra)
